@@ -433,22 +433,29 @@ theorem Inv.v0_pkey {w : World} (h : Inv S v0 w) {k : Key} (hk : v0 k ≠ none) 
 /-- nothing existed below a key that did not exist or was a regular file -/
 theorem Inv.v0_below {w : World} (h : Inv S v0 w) {k : Key} (hk : ¬ v0.isDirAt k) :
     ∀ j, k <+: j → j ≠ k → v0 j = none := by
+  have key : ∀ n (t : List Name), t.length = n → t ≠ [] → v0 (k ++ t) = none := by
+    intro n
+    induction n with
+    | zero => intro t ht hne; exact absurd (List.length_eq_zero_iff.mp ht) hne
+    | succ n ih =>
+      intro t ht hne
+      rcases List.eq_nil_or_concat t with rfl | ⟨t', x, rfl⟩
+      · exact absurd rfl hne
+      · rw [List.concat_eq_append] at ht ⊢
+        apply Classical.byContradiction
+        intro hp
+        have hd := h.v0_parent (k := k ++ (t' ++ [x])) hp (by simp)
+        have hdl : (k ++ (t' ++ [x])).dropLast = k ++ t' := by
+          rw [← List.append_assoc, List.dropLast_concat]
+        rw [hdl] at hd
+        by_cases ht' : t' = []
+        · subst ht'; simp at hd; exact hk hd
+        · have := ih t' (by simp at ht; omega) ht'
+          obtain ⟨mt, hmt⟩ := hd
+          rw [this] at hmt; cases hmt
   intro j hj hne
   obtain ⟨t, rfl⟩ := hj
-  induction t using List.reverseRecOn with
-  | nil => simp at hne
-  | append_singleton t x ih =>
-    apply Classical.byContradiction
-    intro hp
-    have hd := h.v0_parent (k := k ++ (t ++ [x])) hp (by simp)
-    have hdl : (k ++ (t ++ [x])).dropLast = k ++ t := by
-      rw [← List.append_assoc, List.dropLast_concat]
-    rw [hdl] at hd
-    by_cases ht : t = []
-    · subst ht; simp at hd; exact hk hd
-    · have := ih (by intro e; apply ht; simpa using e)
-      obtain ⟨mt, hmt⟩ := hd
-      rw [this] at hmt; cases hmt
+  exact key t.length t rfl (by intro e; subst e; simp at hne)
 
 /-! ### progress of Rollback on the base -/
 
@@ -551,7 +558,8 @@ theorem phase1 {w w1 : World} (hinv : Inv S v0 w) (hnf : w.faults = []) (hs : Sa
           have := congrArg List.length this
           simp at this
         · have := (List.pairwise_cons.mp hpw).1 _ hin k (k ++ [name]) hk hcp rfl rfl
-          simp at this
+          simp only [List.length_append, List.length_singleton] at this
+          omega
     have hnode : (S.view .base w'.fs).isFileAt k ∨ ((S.view .base w'.fs).isDirAt k ∧ ¬ (S.view .base w'.fs).hasChild k) := by
       cases hn : S.view .base w'.fs k with
       | none => rw [hvk] at hn; exact absurd hn hpres
@@ -568,7 +576,7 @@ theorem phase1 {w w1 : World} (hinv : Inv S v0 w) (hnf : w.faults = []) (hs : Sa
         exact ⟨g, o, fun j hj => f j hj⟩)
       (S.remove_ok hmid.good hk hkne hnode)).mono
     intro w'' r ⟨hc, hp, hof⟩
-    obtain ⟨u, hr⟩ := hof.nofault hmid.faults
+    obtain ⟨u, hr⟩ := OnlyFault.nofault hof hmid.faults
     subst hr
     refine ⟨rfl, (List.pairwise_cons.mp hpw).2, (List.nodup_cons.mp hnd').2,
       fun p hp' => hmem p (List.mem_cons_of_mem _ hp'), ?_⟩
@@ -598,6 +606,441 @@ theorem phase1 {w w1 : World} (hinv : Inv S v0 w) (hnf : w.faults = []) (hs : Sa
   apply (sat_forEach hstep (sortMost l) w1 hinit).mono
   intro w' r ⟨hr, _, _, _, hmid⟩
   refine ⟨hr, hmid.congr ?_⟩
+  intro k
+  simp [D]
+
+/-! ### phase 2: restore directories, shallowest first -/
+
+/-- tracked with a directory's info, and not the root -/
+def TSDir (w : World) (k : Key) : Prop := k ≠ [] ∧ ∃ i, TS w k i ∧ i.kind = .dir
+/-- tracked with a regular file's info -/
+def TSFile (w : World) (k : Key) : Prop := ∃ i, TS w k i ∧ i.kind = .file
+
+theorem TN_not_TS {w : World} {k : Key} {i : Info} (h : TS w k i) : ¬ TN w k := by
+  unfold TN TS at *; rw [h]; intro e; cases e
+
+theorem Inv.ts_node {w : World} (h : Inv S v0 w) {k : Key} {i : Info} (hk : PKey k) (hts : TS w k i) :
+    ∃ n, v0 k = some n ∧ InfoFor i n ∧ i.perm < 4096 := by
+  obtain ⟨n, hn, hfor, _⟩ := h.saved k i hk hts
+  exact ⟨n, hn, hfor, by rw [hfor.2.1]; exact h.v0_mode hn⟩
+
+/-- the parent of a key tracked with an info is the root or a tracked directory -/
+theorem Inv.parent_tsdir {w : World} (h : Inv S v0 w) {k : Key} {i : Info} (hk : PKey k) (hts : TS w k i)
+    (hne : k ≠ []) : k.dropLast = [] ∨ TSDir w k.dropLast := by
+  by_cases ha : k.dropLast = []
+  · exact Or.inl ha
+  · right
+    obtain ⟨n, hn, _⟩ := h.ts_node hk hts
+    obtain ⟨mt, hmt⟩ := h.v0_parent (k := k) (by rw [hn]; simp) hne
+    have hpa : PKey k.dropLast := hk.dropLast
+    have htr := h.anc k i hk hts k.dropLast (List.dropLast_prefix k)
+    rcases tracked_cases w k.dropLast with hu | htn | ⟨ia, htsa⟩
+    · exact absurd hu htr
+    · have := h.absent _ hpa htn; rw [this] at hmt; cases hmt
+    · obtain ⟨na, hna, hfora, _⟩ := h.ts_node hpa htsa
+      rw [hmt] at hna; cases hna
+      exact ⟨ha, ia, htsa, hfora.1⟩
+
+theorem Inv.dir_target {w : World} (h : Inv S v0 w) {k : Key} {i : Info} (hk : PKey k) (hts : TS w k i)
+    (hkind : i.kind = .dir) : v0 k = some (restoredDir i) := by
+  obtain ⟨n, hn, hfor, _⟩ := h.ts_node hk hts
+  cases n with
+  | dir mt =>
+    rw [hn]
+    have hfr := h.v0_erased hn
+    obtain ⟨_, hp, hu, hg, _⟩ := hfor
+    cases mt
+    simp only [Node.meta] at hp hu hg hfr
+    simp [restoredDir, hp, hu, hg, hfr]
+  | file c mt => have := hfor.1; rw [hkind] at this; cases this
+  | link t mt => have := hfor.1; rw [hkind] at this; cases this
+
+theorem Inv.file_target {w : World} (h : Inv S v0 w) {k : Key} {i : Info} (hk : PKey k) (hts : TS w k i)
+    (hkind : i.kind = .file) : ∃ c mt', v0 k = some (restoredFile c i) ∧ S.view .backup w.fs k = some (.file c mt') := by
+  obtain ⟨n, hn, hfor, hcopy⟩ := h.saved k i hk hts
+  cases n with
+  | file c mt =>
+    obtain ⟨mt', hb⟩ := hcopy c mt rfl
+    refine ⟨c, mt', ?_, hb⟩
+    rw [hn]
+    obtain ⟨_, hp, hu, hg, ht⟩ := hfor
+    have ht := ht rfl
+    cases mt
+    simp only [Node.meta] at hp hu hg ht
+    simp [restoredFile, hp, hu, hg, ht]
+  | dir mt => have := hfor.1; rw [hkind] at this; cases this
+  | link t mt => have := hfor.1; rw [hkind] at this; cases this
+
+theorem infoFor_ts {w : World} {k : Key} {i : Info} (h : TS w k i) : infoFor w.infos (kp k) = some i := by
+  unfold infoFor; unfold TS at h; rw [h]; rfl
+
+theorem dropLast_length_lt {k : Key} (h : k ≠ []) : k.dropLast.length < k.length := by
+  rw [List.length_dropLast]
+  have : 0 < k.length := List.length_pos_iff.mpr h
+  omega
+
+theorem phase2 {w w1 : World} (hinv : Inv S v0 w)
+    (hmid : Mid S v0 w (fun k => PKey k ∧ TN w k) w1)
+    (l : List Path) (hl : ∀ p, p ∈ l ↔ ∃ k, PKey k ∧ p = kp k ∧ TSDir w k) (hnd : l.Nodup) :
+    Sat (forEachCollect (restoreDirAct cfg w.infos) (sortLeast l)) w1 (fun w' r => r = .ok false ∧
+      Mid S v0 w (fun k => PKey k ∧ (TN w k ∨ TSDir w k)) w') := by
+  let R : Path → Path → Prop := fun p q => ∀ a b, PKey a → PKey b → p = kp a → q = kp b → a.length ≤ b.length
+  let D : List Path → Key → Prop := fun rest k => PKey k ∧ (TN w k ∨ (TSDir w k ∧ kp k ∉ rest))
+  let J : List Path → World → Prop := fun rest w' =>
+    rest.Pairwise R ∧ rest.Nodup ∧ (∀ p ∈ rest, p ∈ l) ∧ Mid S v0 w (D rest) w'
+  have hperm := sortBy_perm lessFPS l
+  have hstep : ∀ x rest w', J (x :: rest) w' →
+      Sat (restoreDirAct cfg w.infos x) w' (fun w'' r => r = .ok () ∧ J rest w'') := by
+    intro x rest w' ⟨hpw, hnd', hmem, hm⟩
+    obtain ⟨k, hk, rfl, hkne, i, hts, hkind⟩ := (hl x).mp (hmem x (by simp))
+    have hxr : kp k ∉ rest := (List.nodup_cons.mp hnd').1
+    have hnotD : ¬ D (kp k :: rest) k := by
+      rintro ⟨_, htn | ⟨_, hnin⟩⟩
+      · exact TN_not_TS hts htn
+      · exact hnin (by simp)
+    obtain ⟨n, hn, hfor, hperm4⟩ := hinv.ts_node hk hts
+    have htarget := hinv.dir_target hk hts hkind
+    have hisdir : i.isDir = true := by simp [Info.isDir, hkind]
+    -- the parent is already a directory
+    have hparent : ∀ w2, S.Chg .base (· = k) w' w2 → (S.view .base w2.fs).parentDir k := by
+      intro w2 hc
+      refine ⟨hkne, ?_⟩
+      have hak : k.dropLast ≠ k := by
+        intro e; have := dropLast_length_lt hkne; rw [e] at this; omega
+      unfold View.isDirAt
+      rw [show S.view .base w2.fs k.dropLast = S.view .base w'.fs k.dropLast from hc.frame _ hak]
+      rcases hinv.parent_tsdir hk hts hkne with ha | ha
+      · rw [ha]; exact S.root_dir hm.good
+      · have hpa : PKey k.dropLast := hk.dropLast
+        have hDa : D (kp k :: rest) k.dropLast := by
+          refine ⟨hpa, Or.inr ⟨ha, ?_⟩⟩
+          intro hin
+          rcases List.mem_cons.mp hin with heq | hin
+          · exact hak (kp_inj hpa hk heq)
+          · have := (List.pairwise_cons.mp hpw).1 _ hin k k.dropLast hk hpa rfl rfl
+            have := dropLast_length_lt hkne
+            omega
+        obtain ⟨_, ia, htsa, hka⟩ := ha
+        rw [hm.done _ hDa, hinv.dir_target hpa htsa hka]
+        exact ⟨_, rfl⟩
+    unfold restoreDirAct
+    apply Sat.bind
+    apply (sat_lexists (S := S) (s := .base) hm.good hk hm.faults).mono
+    intro wa ra ⟨hsa, hsome, hnone⟩
+    have hga : S.G wa.fs := hsa.fs ▸ hm.good
+    have hfa : wa.faults = [] := by rw [hsa.faults]; exact hm.faults
+    -- make room
+    have hroom : ∃ cur, ra = .ok cur ∧ Sat (BFS.whenM (match cur with
+        | some fi => !fi.isDir
+        | none => false) (primUnit cfg .base (.remove (kp k)))) wa (fun w2 r => r = .ok () ∧
+          S.Chg .base (· = k) w' w2 ∧ (S.view .base w2.fs k = none ∨ (S.view .base w2.fs).isDirAt k)) := by
+      cases hv : S.view .base w'.fs k with
+      | none =>
+        refine ⟨none, hnone hv, ?_⟩
+        apply Sat.whenM
+        · intro h; cases h
+        · intro _
+          exact ⟨rfl, Sim.Chg.of_same hm.good hsa, Or.inl (by rw [hsa.fs]; exact hv)⟩
+      | some nd =>
+        obtain ⟨fi, hra, hfi⟩ := hsome nd hv
+        refine ⟨some fi, hra, ?_⟩
+        cases nd with
+        | dir mt =>
+          have : fi.isDir = true := by simp [Info.isDir, hfi.1, Node.kind]
+          apply Sat.whenM
+          · intro h; simp [this] at h
+          · intro _
+            exact ⟨rfl, Sim.Chg.of_same hm.good hsa, Or.inr ⟨mt, by rw [hsa.fs]; exact hv⟩⟩
+        | link t mt => exact absurd hv (S.no_link hm.good)
+        | file c mt =>
+          apply Sat.whenM
+          · intro _
+            apply (sat_primUnit_exact (S := S) (s := .base) (c := .remove (kp k)) (K := (· = k))
+              (P := fun m' => S.view .base m' k = none) hga
+              (fun m' r h => by
+                obtain ⟨g, o, f⟩ := S.remove_frame hga hk hkne h
+                exact ⟨g, o, fun j hj => f j hj⟩)
+              (S.remove_ok hga hk hkne (Or.inl ⟨c, mt, by rw [hsa.fs]; exact hv⟩))).mono
+            intro w2 r2 ⟨hc2, hp2, hof2⟩
+            obtain ⟨u, hr⟩ := OnlyFault.nofault hof2 hfa
+            subst hr
+            exact ⟨rfl, Sim.Chg.same_left hsa hc2, Or.inl (hp2 rfl)⟩
+          · intro h
+            have : fi.isDir = false := by simp [Info.isDir, hfi.1, Node.kind]
+            simp [this] at h
+    obtain ⟨cur, hra, hroomsat⟩ := hroom
+    subst hra
+    simp only
+    apply Sat.bind
+    apply hroomsat.mono
+    intro w2 r2 ⟨hr2, hc2, hcur2⟩
+    subst hr2
+    simp only [infoFor_ts hts]
+    have hf2 : w2.faults = [] := by rw [hc2.faults]; exact hm.faults
+    apply (sat_copyDir_strong (S := S) (s := .base) (i := i) hc2.good hk hkne hisdir hperm4
+      (hparent w2 hc2) hcur2).mono
+    intro w3 r3 ⟨hc3, hof3, hp3⟩
+    obtain ⟨u, hr⟩ := OnlyFault.nofault hof3 hf2
+    subst hr
+    refine ⟨rfl, (List.pairwise_cons.mp hpw).2, (List.nodup_cons.mp hnd').2,
+      fun p hp' => hmem p (List.mem_cons_of_mem _ hp'), ?_⟩
+    apply hm.step (hc2.trans hc3) (by rw [hp3 rfl, htarget])
+    intro j
+    constructor
+    · rintro ⟨hj, htn | ⟨hd, hjr⟩⟩
+      · exact Or.inl ⟨hj, Or.inl htn⟩
+      · by_cases hjk : j = k
+        · exact Or.inr hjk
+        · left
+          refine ⟨hj, Or.inr ⟨hd, ?_⟩⟩
+          intro hin
+          rcases List.mem_cons.mp hin with heq | hin
+          · exact hjk (kp_inj hj hk heq)
+          · exact hjr hin
+    · rintro (⟨hj, htn | ⟨hd, hjr⟩⟩ | rfl)
+      · exact ⟨hj, Or.inl htn⟩
+      · exact ⟨hj, Or.inr ⟨hd, fun hin => hjr (List.mem_cons_of_mem _ hin)⟩⟩
+      · exact ⟨hk, Or.inr ⟨⟨hkne, i, hts, hkind⟩, hxr⟩⟩
+  have hinit : J (sortLeast l) w1 := by
+    refine ⟨sortLeast_kp_pairwise l, hperm.nodup_iff.mpr hnd, fun p hp => hperm.mem_iff.mp hp, ?_⟩
+    apply hmid.congr
+    intro k
+    constructor
+    · rintro ⟨hk, htn⟩; exact ⟨hk, Or.inl htn⟩
+    · rintro ⟨hk, htn | ⟨hd, hnin⟩⟩
+      · exact ⟨hk, htn⟩
+      · exact absurd (hperm.mem_iff.mpr ((hl (kp k)).mpr ⟨k, hk, rfl, hd⟩)) hnin
+  apply (sat_forEach hstep (sortLeast l) w1 hinit).mono
+  intro w' r ⟨hr, _, _, _, hm⟩
+  refine ⟨hr, hm.congr ?_⟩
+  intro k
+  simp [D]
+
+/-! ### phase 3: restore regular files -/
+
+theorem sat_hStat {wh : WHandle} {k : Key} {n : Node} {w : World} (hg : S.G w.fs)
+    (hH : S.H wh.side wh.h k) (hv : S.view wh.side w.fs k = some n) :
+    Sat (hStat cfg wh) w (fun w' r => SameFS w w' ∧ OnlyFault w r ∧ ∀ fi, r = .ok fi → InfoFor fi n) := by
+  unfold hStat
+  apply Sat.bind
+  apply Sat.primH
+  · intro hf w1 h1
+    exact ⟨h1, by intro e h; cases h; exact ⟨rfl, hf⟩, by intro fi h; cases h⟩
+  · intro w1 h1
+    apply Sat.bind
+    apply Sat.getW
+    simp only
+    obtain ⟨i, hi, hfor⟩ := S.hstat_some (h1.fs ▸ hg) hH (by rw [h1.fs]; exact hv)
+    rw [hi]
+    apply Sat.pure
+    exact ⟨h1, OnlyFault.ok, by intro fi h; cases h; exact hfor⟩
+
+theorem phase3 {w w2 : World} (hinv : Inv S v0 w)
+    (hmid : Mid S v0 w (fun k => PKey k ∧ (TN w k ∨ TSDir w k)) w2)
+    (l : List Path) (hl : ∀ p, p ∈ l ↔ ∃ k, PKey k ∧ p = kp k ∧ TSFile w k) (hnd : l.Nodup) :
+    Sat (forEachCollect (restoreFileAct cfg w.infos) (sortStrings l)) w2 (fun w' r => r = .ok false ∧
+      Mid S v0 w (fun k => PKey k ∧ (TN w k ∨ TSDir w k ∨ TSFile w k)) w') := by
+  let D : List Path → Key → Prop := fun rest k => PKey k ∧ (TN w k ∨ TSDir w k ∨ (TSFile w k ∧ kp k ∉ rest))
+  let J : List Path → World → Prop := fun rest w' =>
+    rest.Nodup ∧ (∀ p ∈ rest, p ∈ l) ∧ Mid S v0 w (D rest) w'
+  have hperm := sortBy_perm strLt l
+  have hstep : ∀ x rest w', J (x :: rest) w' →
+      Sat (restoreFileAct cfg w.infos x) w' (fun w'' r => r = .ok () ∧ J rest w'') := by
+    intro x rest w' ⟨hnd', hmem, hm⟩
+    obtain ⟨k, hk, rfl, i, hts, hkind⟩ := (hl x).mp (hmem x (by simp))
+    have hxr : kp k ∉ rest := (List.nodup_cons.mp hnd').1
+    obtain ⟨c, mtb, htarget, hbak⟩ := hinv.file_target hk hts hkind
+    obtain ⟨n, hn, hfor, hperm4⟩ := hinv.ts_node hk hts
+    have hreg : i.isRegular = true := by simp [Info.isRegular, hkind]
+    have hkne : k ≠ [] := by
+      intro e; subst e
+      obtain ⟨mt, hroot⟩ := hinv.v0_root
+      rw [htarget] at hroot; cases hroot
+    have hnodir : ¬ v0.isDirAt k := by
+      rintro ⟨mt, h⟩; rw [htarget] at h; cases h
+    -- nothing is left below the key
+    have hbelow : ∀ j, k <+: j → j ≠ k → S.view .base w'.fs j = none := by
+      intro j hj hjk
+      have horig := hinv.v0_below hnodir j hj hjk
+      by_cases hD : D (kp k :: rest) j
+      · rw [hm.done j hD]; exact horig
+      · rw [hm.rest j hD]
+        apply Classical.byContradiction
+        intro hne
+        have hpj : PKey j := S.pkey hinv.good hne
+        exact hD ⟨hpj, Or.inl (hinv.present_new hpj hne horig)⟩
+    -- the parent directory has been restored
+    have hparent : (S.view .base w'.fs).isDirAt k.dropLast := by
+      rcases hinv.parent_tsdir hk hts hkne with ha | ha
+      · rw [ha]; exact S.root_dir hm.good
+      · have hpa : PKey k.dropLast := hk.dropLast
+        obtain ⟨_, ia, htsa, hka⟩ := ha
+        unfold View.isDirAt
+        rw [hm.done _ ⟨hpa, Or.inr (Or.inl ⟨‹_›, ia, htsa, hka⟩)⟩, hinv.dir_target hpa htsa hka]
+        exact ⟨_, rfl⟩
+    have hak : k.dropLast ≠ k := by
+      intro e; have := dropLast_length_lt hkne; rw [e] at this; omega
+    have hvk' : S.view .backup w'.fs k = some (.file c mtb) := by rw [hm.backup]; exact hbak
+    unfold restoreFileAct
+    simp only [infoFor_ts hts]
+    unfold restoreFile
+    apply Sat.bind
+    apply (sat_open_ro (S := S) (s := .backup) hm.good hk).mono
+    intro wa ra ⟨hsa, hwh, hofa⟩
+    obtain ⟨f, hra⟩ := OnlyFault.nofault (hofa (Or.inl ⟨c, mtb, hvk'⟩)) hm.faults
+    subst hra
+    obtain ⟨hside, hH, hflag⟩ := hwh f rfl
+    simp only
+    have hga : S.G wa.fs := hsa.fs ▸ hm.good
+    have hfa : wa.faults = [] := by rw [hsa.faults]; exact hm.faults
+    apply Sat.bind
+    apply Sat.attempt
+    -- the body of restoreFile
+    have hbody : Sat (do
+        let fi ← hStat cfg f
+        let baseFi ← lexists cfg .base (kp k)
+        let replaced := match baseFi with
+          | some b => !b.isRegular
+          | none => false
+        BFS.whenM (!fi.isRegular || replaced) (primUnit cfg .base (.removeAll (kp k)))
+        copyFile cfg .base (kp k) i f : M Unit) wa
+        (fun w3 r => r = .ok () ∧ S.Chg .base (· = k) w' w3 ∧ S.view .base w3.fs k = some (restoredFile c i)) := by
+      apply Sat.bind
+      apply (sat_hStat (S := S) (wh := f) (k := k) hga (by rw [hside]; exact hH)
+        (by rw [hside, hsa.fs]; exact hvk')).mono
+      intro wb rb ⟨hsb, hofb, hfi⟩
+      obtain ⟨fi, hrb⟩ := OnlyFault.nofault hofb hfa
+      subst hrb
+      have hfireg : fi.isRegular = true := by
+        have := (hfi fi rfl).1
+        simp [Info.isRegular, this, Node.kind]
+      simp only
+      have hsab := hsa.trans hsb
+      have hgb : S.G wb.fs := hsab.fs ▸ hm.good
+      have hfb : wb.faults = [] := by rw [hsab.faults]; exact hm.faults
+      apply Sat.bind
+      apply (sat_lexists (S := S) (s := .base) hgb hk hfb).mono
+      intro wc rc ⟨hsc, hsome, hnone⟩
+      have hsac := hsab.trans hsc
+      have hgc : S.G wc.fs := hsac.fs ▸ hm.good
+      have hfc : wc.faults = [] := by rw [hsac.faults]; exact hm.faults
+      have hroom : ∃ cur, rc = .ok cur ∧ Sat (BFS.whenM (!fi.isRegular || (match cur with
+          | some b => !b.isRegular
+          | none => false)) (primUnit cfg .base (.removeAll (kp k)))) wc (fun w3 r => r = .ok () ∧
+            S.Chg .base (· = k) w' w3 ∧ CanWrite (S.view .base w3.fs) k) := by
+        have hpar : ∀ w3, S.Chg .base (· = k) w' w3 → (S.view .base w3.fs).parentDir k := by
+          intro w3 hc
+          refine ⟨hkne, ?_⟩
+          unfold View.isDirAt
+          rw [hc.frame _ hak]
+          exact hparent
+        cases hv : S.view .base w'.fs k with
+        | none =>
+          refine ⟨none, hnone (by rw [hsab.fs]; exact hv), ?_⟩
+          apply Sat.whenM
+          · intro h; simp [hfireg] at h
+          · intro _
+            have hc := Sim.Chg.of_same (S := S) (s := .base) (K := (· = k)) hm.good hsac
+            exact ⟨rfl, hc, Or.inr ⟨by rw [hsac.fs]; exact hv, hpar wc hc⟩⟩
+        | some nd =>
+          obtain ⟨bi, hrc, hbi⟩ := hsome nd (by rw [hsab.fs]; exact hv)
+          refine ⟨some bi, hrc, ?_⟩
+          cases nd with
+          | file c' mt' =>
+            have : bi.isRegular = true := by simp [Info.isRegular, hbi.1, Node.kind]
+            apply Sat.whenM
+            · intro h; simp [hfireg, this] at h
+            · intro _
+              exact ⟨rfl, Sim.Chg.of_same hm.good hsac, Or.inl ⟨c', mt', by rw [hsac.fs]; exact hv⟩⟩
+          | link t mt' => exact absurd hv (S.no_link hm.good)
+          | dir mt' =>
+            apply Sat.whenM
+            · intro _
+              have hvc : S.view .base wc.fs k ≠ none := by rw [hsac.fs, hv]; simp
+              apply (sat_primUnit_exact (S := S) (s := .base) (c := .removeAll (kp k)) (K := (· = k))
+                (P := fun m' => S.view .base m' k = none) hgc
+                (fun m' r h => by
+                  obtain ⟨g, o, f'⟩ := S.removeAll_frame hgc hk hkne h
+                  obtain ⟨m'', h'', hall⟩ := S.removeAll_ok hgc hk hkne hvc
+                  rw [h] at h''; cases h''
+                  refine ⟨g, o, ?_⟩
+                  intro j hj
+                  by_cases hpre : k <+: j
+                  · rw [hall j hpre, hsac.fs, hbelow j hpre hj]
+                  · exact f' j hpre)
+                (by
+                  obtain ⟨m'', h'', hall⟩ := S.removeAll_ok hgc hk hkne hvc
+                  exact ⟨m'', h'', hall k List.prefix_rfl⟩)).mono
+              intro w3 r3 ⟨hc3, hp3, hof3⟩
+              obtain ⟨u, hr⟩ := OnlyFault.nofault hof3 hfc
+              subst hr
+              have hc := Sim.Chg.same_left hsac hc3
+              exact ⟨rfl, hc, Or.inr ⟨hp3 rfl, hpar w3 hc⟩⟩
+            · intro h
+              have : bi.isRegular = false := by simp [Info.isRegular, hbi.1, Node.kind]
+              simp [this] at h
+      obtain ⟨cur, hrc, hroomsat⟩ := hroom
+      subst hrc
+      simp only
+      apply Sat.bind
+      apply hroomsat.mono
+      intro w3 r3 ⟨hr3, hc3, hcw3⟩
+      subst hr3
+      simp only
+      have hf3 : w3.faults = [] := by rw [hc3.faults]; exact hm.faults
+      have hvk3 : S.view Side.base.other w3.fs k = some (.file c mtb) := by
+        rw [hc3.other]; exact hvk'
+      apply (sat_copyFile (S := S) (s := .base) (ks := k) (data := c) (mt0 := mtb) hc3.good hk
+        hside hH (by rw [hflag]; decide) hvk3 hreg hperm4).mono
+      intro w4 r4 ⟨hc4, hp4, hof4⟩
+      obtain ⟨u, hr⟩ := OnlyFault.nofault (hof4 hcw3) hf3
+      subst hr
+      exact ⟨rfl, hc3.trans hc4, hp4 rfl⟩
+    apply hbody.mono
+    intro w3 r3 ⟨hr3, hc3, hv3⟩
+    subst hr3
+    simp only
+    apply Sat.bind
+    apply Sat.attempt
+    apply (sat_hClose (wh := f) (w := w3)).mono
+    intro w4 r4 ⟨hs4, _⟩
+    simp only
+    apply Sat.pure
+    refine ⟨rfl, (List.nodup_cons.mp hnd').2, fun p hp' => hmem p (List.mem_cons_of_mem _ hp'), ?_⟩
+    apply hm.step (hc3.same_right hs4) (by rw [hs4.fs, hv3, htarget])
+    intro j
+    constructor
+    · rintro ⟨hj, htn | hd | ⟨hf, hjr⟩⟩
+      · exact Or.inl ⟨hj, Or.inl htn⟩
+      · exact Or.inl ⟨hj, Or.inr (Or.inl hd)⟩
+      · by_cases hjk : j = k
+        · exact Or.inr hjk
+        · left
+          refine ⟨hj, Or.inr (Or.inr ⟨hf, ?_⟩)⟩
+          intro hin
+          rcases List.mem_cons.mp hin with heq | hin
+          · exact hjk (kp_inj hj hk heq)
+          · exact hjr hin
+    · rintro (⟨hj, htn | hd | ⟨hf, hjr⟩⟩ | rfl)
+      · exact ⟨hj, Or.inl htn⟩
+      · exact ⟨hj, Or.inr (Or.inl hd)⟩
+      · exact ⟨hj, Or.inr (Or.inr ⟨hf, fun hin => hjr (List.mem_cons_of_mem _ hin)⟩)⟩
+      · exact ⟨hk, Or.inr (Or.inr ⟨⟨i, hts, hkind⟩, hxr⟩)⟩
+  have hinit : J (sortStrings l) w2 := by
+    refine ⟨hperm.nodup_iff.mpr hnd, fun p hp => hperm.mem_iff.mp hp, ?_⟩
+    apply hmid.congr
+    intro k
+    constructor
+    · rintro ⟨hk, htn | hd⟩
+      · exact ⟨hk, Or.inl htn⟩
+      · exact ⟨hk, Or.inr (Or.inl hd)⟩
+    · rintro ⟨hk, htn | hd | ⟨hf, hnin⟩⟩
+      · exact ⟨hk, Or.inl htn⟩
+      · exact ⟨hk, Or.inr hd⟩
+      · exact absurd (hperm.mem_iff.mpr ((hl (kp k)).mpr ⟨k, hk, rfl, hf⟩)) hnin
+  apply (sat_forEach hstep (sortStrings l) w2 hinit).mono
+  intro w' r ⟨hr, _, _, hm⟩
+  refine ⟨hr, hm.congr ?_⟩
   intro k
   simp [D]
 
